@@ -41,6 +41,9 @@ def main(argv):
         except Exception:
             rc = 2
             buf.write(f"ANALYSIS-ERROR property={pid} internal error in the analyser: {traceback.format_exc(limit=3)}\n")
+        if rc == 0 and os.environ.get("VERIF_STRICT_INVENTORY") and getattr(chk, "vanished", None):
+            rc = 2
+            buf.write(f"ANALYSIS-ERROR property={pid} {len(chk.vanished)} obligation(s) of the pinned tree no longer produced: {chk.vanished[:3]}\n")
         if os.environ.get("VERIF_DUMP_KEYS"):
             import json
             with open(os.environ["VERIF_DUMP_KEYS"], "a") as fh:
